@@ -224,7 +224,11 @@ CLAIMS["C16"] = {
 
 CLAIMS["C18"] = {
     "text": "Machine-checked proof (Lean 4) over executable models of the parser (grammar.pest read as the PEG pest executes, plus the "
-            "AST construction) and of the formatter (fmt.rs function by function, including the blank-line state machine). Proved: for "
+            "AST construction) and of the formatter (fmt.rs function by function, including the blank-line state machine). Proved, with "
+            "no premise on the schema: for EVERY source text the grammar model accepts, the formatted text of its AST reads back as the "
+            "canonical form of that AST (same definitions in the same order, names, ids, types, attributes, comments, docs; imports "
+            "sorted) and formatting that again changes nothing (formatting_a_parsed_schema = parsed_schemas_are_well_formed, one lemma "
+            "per grammar rule, + format_parses_back + formatting_again_changes_nothing). In detail: for "
             "EVERY well-formed schema AST (structs, enums, newtypes, consts of all kinds, services with functions in all body forms, "
             "events, inline structs / enums, fallbacks, attributes, comments and doc strings everywhere, file prelude, imports) the "
             "formatted text parses, without syntax error, to exactly the same schema with comment / doc lines in canonical form and "
@@ -237,11 +241,10 @@ CLAIMS["C18"] = {
             "(canonical AST dump, formatted text, syntax errors), the model's evaluation of the theorem's premises and conclusion on "
             "every parsed AST (sval lines), plus implementation-only oracles for the statement itself: formatted text parses, to the "
             "same schema (imports sorted), idempotently, with the same diagnostics.",
-    "note": "Trusted: Lean kernel (+propext, Classical.choice, Quot.sound), the harness, the reading of pest's semantics. Partial: that "
-            "every AST the parser returns is well formed and that input length + 2 is enough fuel are evaluated on every correspondence "
-            "input, not proved; idempotence of the whole formatter follows from the round trip only together with 'format depends on "
-            "lines through their inner text', which is proved for lines but not yet lifted to the whole AST; non-ASCII identifiers and "
-            "the validator (equal errors and warnings: oracle only) are not modelled.",
+    "note": "Trusted: Lean kernel (+propext, Classical.choice, Quot.sound), the harness, the reading of pest's semantics. Partial: the "
+            "model parser bounds nesting by a fuel; that the fuel parseSchema uses (input length + 2) is at least what the returned AST "
+            "needs is evaluated on every correspondence input (sval lines), not proved - the theorems take the fuel as given; non-ASCII "
+            "identifiers and the validator (equal errors and warnings: oracle only) are not modelled.",
     "design_ref": "DESIGN.md section 6 C18, section 10",
     "technique": "Lean 4 proofs (print/parse round trip) over executable PEG-parser and formatter models + differential correspondence against the real parser and formatter",
 }
